@@ -8,9 +8,11 @@ package main
 //       the target performs (startval>0 ? 1 : 0) + sum(reqs) YieldRefs.  y_k is decided by the shape from what the
 //       target has received so far.  park=1 holds the target at cor.yieldref.afterRecv for every op until at
 //       least two further requests are queued (or no more can come), which forces opCh to fill beyond 5.
+//       ty=int|any|ptr element type (interface{} / *int have a nil value); startval=nil: StartWithVal(zero of T);
+//       late=<ms> / slow=<ms>: the target starts serving late / sleeps before every YieldRef.
 //       Monitors (schedule independent): per caller the target saw exactly its x's in order; each caller got
 //       exactly the y's of its own requests in order; y_k is the shape's value; StartWithVal's value reached the
-//       first YieldRef.  Observation: "ok total=<T> first=<V>"  or  "viol <kind> ...".
+//       first YieldRef.  Observation: "ok total=<T> first=<V|nil|none>"  or  "viol <kind> ...".
 //   donot v=V     DoNotation returns the effect's result          -> "ok <V>"
 //   yfio v=V      YieldFromIO returns the IO's value              -> "ok <V>"
 //   flags         IsStarted/IsDone before Start, while running, after the effect returned -> "b0 b0 b1 b0 b1 b1"
@@ -45,15 +47,37 @@ func c14Shape(shape string, k int, seenX []int) int {
 }
 
 func c14Pair(par map[string]string) string {
+	switch par["ty"] {
+	case "any":
+		return c14PairG[interface{}](par, func(i int) interface{} { return i }, func(v interface{}) (int, bool) { i, ok := v.(int); return i, ok })
+	case "ptr":
+		return c14PairG[*int](par, func(i int) *int { return &i }, func(v *int) (int, bool) {
+			if v == nil {
+				return 0, false
+			}
+			return *v, true
+		})
+	}
+	return c14PairG[int](par, func(i int) int { return i }, func(v int) (int, bool) { return v, true })
+}
+
+// c14PairG runs one `pair` case for element type T.  late=<ms>: the target's effect sleeps before its first
+// YieldRef after the start value (requests pile up: 5 buffered, one sender blocked holding closedM, the rest waiting
+// for the lock); slow=<ms>: it sleeps that long before every YieldRef.  startval=nil: StartWithVal(zero value of T).
+func c14PairG[T any](par map[string]string, box func(int) T, unbox func(T) (int, bool)) string {
 	shape := par["shape"]
 	var reqs []int
 	for _, f := range strings.Split(par["reqs"], ",") {
 		n, _ := strconv.Atoi(f)
 		reqs = append(reqs, n)
 	}
+	startNil := par["startval"] == "nil"
 	startval, _ := strconv.Atoi(par["startval"])
+	hasStart := startNil || startval > 0
 	seed, _ := strconv.ParseInt(par["seed"], 10, 64)
 	jitter, _ := strconv.Atoi(par["jitter"])
+	late, _ := strconv.Atoi(par["late"])
+	slowMs, _ := strconv.Atoi(par["slow"])
 	total := 0
 	for _, n := range reqs {
 		total += n
@@ -73,51 +97,80 @@ func c14Pair(par map[string]string) string {
 			return 0
 		})
 	}
-	type rec struct{ x, y int }
+	type rec struct {
+		x, y int
+		xok  bool
+	}
 	var log []rec // written by the target goroutine only, read after it finished
-	first := -1
-	var tg *fpgo.CorDef[int]
+	firstStr := "none"
+	var tg *fpgo.CorDef[T]
 	tdone := make(chan struct{})
-	slow := par["park"] == "1"
-	tg = fpgo.CorNewGenerics[int](func() {
+	park := par["park"] == "1"
+	tg = fpgo.CorNewGenerics[T](func() {
 		defer close(tdone)
 		var seen []int
-		if startval > 0 {
-			first = tg.YieldRef(0)
+		if hasStart {
+			var zero T
+			f := tg.YieldRef(zero)
+			if v, ok := unbox(f); ok {
+				firstStr = strconv.Itoa(v)
+			} else {
+				firstStr = "nil"
+			}
+		}
+		if late > 0 {
+			time.Sleep(time.Duration(late) * time.Millisecond)
 		}
 		for k := 0; k < total; k++ {
-			if slow && k%3 == 0 {
+			if slowMs > 0 {
+				time.Sleep(time.Duration(slowMs) * time.Millisecond)
+			} else if park && k%3 == 0 {
 				time.Sleep(300 * time.Microsecond) // let requests pile up beyond the buffer of 5
 			}
 			y := c14Shape(shape, k, seen)
-			x := tg.YieldRef(y)
-			seen = append(seen, x)
-			log = append(log, rec{x, y})
+			xv, ok := unbox(tg.YieldRef(box(y)))
+			seen = append(seen, xv)
+			log = append(log, rec{xv, y, ok})
 		}
 	})
-	if startval > 0 {
-		tg.StartWithVal(startval)
+	if startNil {
+		var zero T
+		tg.StartWithVal(zero)
+	} else if startval > 0 {
+		tg.StartWithVal(box(startval))
 	} else {
 		tg.Start()
 	}
 	answers := make([][]int, len(reqs))
+	nilAnswers := make([]int, len(reqs))
 	var wg sync.WaitGroup
 	for i, n := range reqs {
 		wg.Add(1)
 		go func(i, n int) {
 			defer wg.Done()
-			me := fpgo.CorNewGenerics[int](func() {})
+			me := fpgo.CorNewGenerics[T](func() {})
 			for s := 1; s <= n; s++ {
-				answers[i] = append(answers[i], me.YieldFrom(tg, i*1000+s))
+				v, ok := unbox(me.YieldFrom(tg, box(i*1000+s)))
+				if !ok {
+					nilAnswers[i]++
+				}
+				answers[i] = append(answers[i], v)
 			}
 		}(i, n)
 	}
 	fin := make(chan struct{})
-	go func() { wg.Wait(); <-tdone; close(fin) }()
+	callersDone := make(chan struct{})
+	go func() { wg.Wait(); close(callersDone); <-tdone; close(fin) }()
 	select {
 	case <-fin:
-	case <-time.After(5 * time.Second):
-		return "viol hang"
+	case <-time.After(time.Duration(5000+late+slowMs*total) * time.Millisecond):
+		select {
+		case <-callersDone:
+			// every YieldFrom returned but the target still waits for requests: some were dropped on the way
+			return "viol hang target-still-waiting-for-requests all-callers-returned"
+		default:
+			return "viol hang callers-blocked"
+		}
 	}
 	if len(log) != total {
 		return fmt.Sprintf("viol count target-took=%d want=%d", len(log), total)
@@ -125,6 +178,9 @@ func c14Pair(par map[string]string) string {
 	// y_k is the shape's value of what was received before
 	var seen []int
 	for k, r := range log {
+		if !r.xok {
+			return fmt.Sprintf("viol nil-request k=%d", k)
+		}
 		if r.y != c14Shape(shape, k, seen) {
 			return fmt.Sprintf("viol gen k=%d", k)
 		}
@@ -149,23 +205,33 @@ func c14Pair(par map[string]string) string {
 		if len(answers[i]) != n {
 			return fmt.Sprintf("viol answers caller=%d got=%d want=%d", i, len(answers[i]), n)
 		}
+		if nilAnswers[i] > 0 {
+			return fmt.Sprintf("viol nil-answer caller=%d", i)
+		}
 		for s := 0; s < n; s++ {
 			if answers[i][s] != ys[s] {
 				return fmt.Sprintf("viol misrouted caller=%d pos=%d got=%d want=%d", i, s+1, answers[i][s], ys[s])
 			}
 		}
 	}
-	if startval > 0 && first != startval {
-		return fmt.Sprintf("viol startval first=%d want=%d", first, startval)
+	wantFirst := "none"
+	if startNil {
+		var zero T
+		if v, ok := unbox(zero); ok {
+			wantFirst = strconv.Itoa(v)
+		} else {
+			wantFirst = "nil"
+		}
+	} else if startval > 0 {
+		wantFirst = strconv.Itoa(startval)
+	}
+	if firstStr != wantFirst {
+		return fmt.Sprintf("viol startval first=%s want=%s", firstStr, wantFirst)
 	}
 	if !tg.IsDone() || !tg.IsStarted() {
 		return "viol flags"
 	}
-	fv := 0
-	if startval > 0 {
-		fv = first
-	}
-	return fmt.Sprintf("ok total=%d first=%d", total, fv)
+	return fmt.Sprintf("ok total=%d first=%s", total, firstStr)
 }
 
 func c14Bool(b bool) string {
@@ -237,6 +303,21 @@ func c14Gen(tier string, rng *rand.Rand, emit func(string)) map[string]interface
 			e(fmt.Sprintf("pair shape=%s reqs=2,2,2,2,2,2,2,2 startval=%d seed=3 jitter=1 park=1", sh, sv))
 		}
 	}
+	// the target starts serving late / serves slowly while 7-8 callers are outstanding: 5 requests buffered, one
+	// sender blocked in the send holding closedM, the others waiting for that lock for 100-300 ms
+	for _, sh := range shapes {
+		e(fmt.Sprintf("pair shape=%s reqs=1,1,1,1,1,1,1,1 startval=0 seed=4 jitter=0 park=0 late=250", sh))
+		e(fmt.Sprintf("pair shape=%s reqs=2,2,2,2,2,2,2 startval=7 seed=5 jitter=0 park=0 late=120", sh))
+	}
+	e("pair shape=echo reqs=2,2,2,2,2,2,2,2 startval=0 seed=6 jitter=0 park=0 slow=40")
+	e("pair shape=acc reqs=3,3,3,3,3,3,3 startval=5 seed=7 jitter=1 park=0 slow=30 late=60")
+	// element types with a nil value; StartWithVal(nil) / StartWithVal(zero) must still reach the first YieldRef
+	for _, ty := range []string{"any", "ptr", "int"} {
+		e(fmt.Sprintf("pair ty=%s shape=fixed reqs=3 startval=nil seed=8 jitter=0 park=0", ty))
+		e(fmt.Sprintf("pair ty=%s shape=echo reqs=2,3,1 startval=nil seed=9 jitter=1 park=1", ty))
+		e(fmt.Sprintf("pair ty=%s shape=acc reqs=2,2 startval=6 seed=10 jitter=1 park=0", ty))
+		e(fmt.Sprintf("pair ty=%s shape=acc reqs=4,1 startval=0 seed=11 jitter=0 park=1", ty))
+	}
 	e("donot v=0")
 	e("donot v=41")
 	e("yfio v=7")
@@ -256,7 +337,15 @@ func c14Gen(tier string, rng *rand.Rand, emit func(string)) map[string]interface
 		if rng.Intn(2) == 0 {
 			sv = 1 + rng.Intn(50)
 		}
-		e(fmt.Sprintf("pair shape=%s reqs=%s startval=%d seed=%d jitter=%d park=%d", shapes[rng.Intn(3)], strings.Join(rs, ","), sv, rng.Intn(1<<30), rng.Intn(3), rng.Intn(2)))
+		svs := strconv.Itoa(sv)
+		if rng.Intn(5) == 0 {
+			svs = "nil"
+		}
+		extra := ""
+		if callers >= 7 && rng.Intn(2) == 0 {
+			extra = fmt.Sprintf(" late=%d", 60+rng.Intn(120))
+		}
+		e(fmt.Sprintf("pair ty=%s shape=%s reqs=%s startval=%s seed=%d jitter=%d park=%d%s", []string{"int", "any", "ptr"}[rng.Intn(3)], shapes[rng.Intn(3)], strings.Join(rs, ","), svs, rng.Intn(1<<30), rng.Intn(3), rng.Intn(2), extra))
 	}
 	return map[string]interface{}{"cases": n}
 }
